@@ -536,6 +536,15 @@ static void judge(const CaseId& cid, Env& env, const int* kinds, int n, const ch
     ++(*g_cnt)["evaluations"];
     if (nontrivial) ++(*g_cnt)["distinct_nontrivial"];
     (*g_cnt)["callbacks_checked"] += model.size();
+    // Left open by the property: whether a DynamicHandler / ChainHandler also hands osm_object and the sub-item
+    // callbacks on to what it wraps (this version does not). Such events are accepted and only counted.
+    for (size_t i = 0; i < g_log.size();) {
+        const Ev& e = g_log[i];
+        if (e.leaf != 0 && (e.cb == CB_OSM_OBJECT || (e.cb >= CB_TAG_LIST && e.cb <= CB_DISC))) {
+            ++(*g_cnt)["open_inner_handler_got_generic_or_subitem_callback"];
+            g_log.erase(g_log.begin() + static_cast<long>(i));
+        } else ++i;
+    }
     bool ok = model.size() == g_log.size();
     for (size_t i = 0; ok && i < model.size(); ++i) ok = same(model[i], g_log[i]);
     for (const Ev& e : g_log) {   // diversity: which (kind, inner?, callback, item type, constness) were really delivered
